@@ -11,6 +11,7 @@
 (* A string is a sequence of one-character elements.  Four elements stand  *)
 (* for something that cannot be written as a TLA+ character:               *)
 (*    "sp"  U+0020      "nul" U+0000                                       *)
+(*    "lf"  U+000A      "cr"  U+000D      "tab" U+0009                     *)
 (*    "u2"  a 2-byte code point      "u4"  a 4-byte code point             *)
 (* and "PAD" stands for `padlen` copies of the letter p (so that total     *)
 (* lengths 254 / 255 / 256 are reached without 256-element sequences).     *)
@@ -36,11 +37,25 @@
 (*       "length limit").                                                  *)
 (* Interpretation fixed in DESIGN.md: strict localpart = [0-9a-z_\-=./]+,  *)
 (* historical localpart = any characters except ':'.                       *)
+(*                                                                         *)
+(* Mode "stray": WHERE a stray byte is and WHICH one.  Line feed, carriage *)
+(* return, tab, space and NUL are in no alphabet of any grammar except the *)
+(* two "any character" parts (historical localpart, opaque part of a room  *)
+(* ID with a domain): put anywhere into a server name or a domainless room *)
+(* ID they make it invalid - also where a lenient decoder of some other    *)
+(* format (base64 readers skip CR / LF) would not notice them.  Init takes *)
+(* a valid identifier of each kind and inserts one such byte at every      *)
+(* position (before and after the sigil, inside, at the very end), puts it *)
+(* in the place of every character, or inserts a run of them (two, CR LF,  *)
+(* as many as fill the identifier to 255 / 256 bytes) at the ends and in   *)
+(* the middle.                                                             *)
 (***************************************************************************)
 EXTENDS Integers, Sequences, FiniteSets, TLC
 
 CONSTANTS Mode,        \* "free": every sequence over FreeAlphabet up to FreeLen atoms;
                        \* "struct": grammar-guided positions with at most MaxDev deviations
+                       \* "stray": valid identifiers with a stray byte / a run of stray bytes at every place
+                       \* "stray7": the same, the single stray byte at the 3 first, the 3 last and every 7th position
           FreeLen,
           MaxDev
 
@@ -53,7 +68,8 @@ HexUpper == {"A", "B", "C", "D", "E", "F"}
 Lowers   == HexLower \cup {"g", "p", "z", "PAD"}
 Uppers   == HexUpper \cup {"G", "Z"}
 Puncts   == {"@", "!", "$", "#", ":", "[", "]", ".", "-", "_", "=", "/", "+", "%"}
-Specials == {"sp", "nul", "u2", "u4"}
+Specials == {"sp", "nul", "u2", "u4", "lf", "cr", "tab"}
+StrayBytes == {"lf", "cr", "tab", "sp", "nul"}
 KnownChars == Digits \cup Lowers \cup Uppers \cup Puncts \cup Specials
 
 IsDigit(c) == c \in Digits
@@ -367,8 +383,37 @@ Judge ==
 
 NoOut == [s |-> <<>>]
 
-Init == /\ atoms = <<>> /\ n = 0 /\ dev = 0 /\ phase = "spell" /\ padlen = 0 /\ out = NoOut
-        /\ pos \in (IF Mode = "free" THEN {"free"} ELSE {"start", "host"})
+\* --- mode "stray" ---------------------------------------------------------------
+\* valid identifiers of every kind, as sequences of single characters (all ASCII: elements = bytes)
+StrayBases == { <<"!">> \o Chars("b43"),                                        \* domainless room ID
+                <<"!", "a", "A", ":", "a", ".", "a", ":", "8", "0">>,            \* room ID with a domain
+                <<"@", "a", "7", ":", "a", ".", "a", ":", "8", "0">>,            \* user ID
+                <<"a", "-", "a", ".", "a", ":", "8", "0">>,                      \* server name with a port
+                <<"[", ":", ":", "1", "]", ":", "8", "0">>,                      \* IPv6 literal with a port
+                <<"1", ".", "2", ".", "3", ".", "4">> }                          \* IPv4 literal
+Ins(base, i, x) == SubSeq(base, 1, i) \o x \o SubSeq(base, i + 1, Len(base))       \* x after element i (0: in front)
+Repl(base, i, c) == [base EXCEPT ![i] = c]
+\* short runs: two of a kind, CR LF; long runs: as many as fill the identifier to exactly 255 bytes (and, for
+\* the line feed, to 256)
+ShortRuns == {<<c, c>> : c \in StrayBytes} \cup {<<"cr", "lf">>}
+\* (long strings are costly to judge: for the domainless room ID and the server name with a port only)
+LongBases == {<<"!">> \o Chars("b43"), <<"a", "-", "a", ".", "a", ":", "8", "0">>}
+LongRuns(base) == IF base \in LongBases THEN {Rep(c, 255 - Len(base)) : c \in StrayBytes} \cup {Rep("lf", 256 - Len(base))} ELSE {}
+Spots(base) == {0, 1, Len(base) \div 2, Len(base) - 1, Len(base)}
+EndSpots(base) == {1, Len(base)}                 \* right after the sigil / first character, and at the very end
+IsStray == Mode \in {"stray", "stray7"}
+StrayStride == IF Mode = "stray7" THEN 7 ELSE 1
+Sampled(base) == {i \in 0..Len(base) : i <= 2 \/ i >= Len(base) - 2 \/ i % StrayStride = 0}
+StrayStrings == UNION {   {Ins(base, i, <<c>>) : i \in Sampled(base), c \in StrayBytes}
+                     \cup {Repl(base, i, c) : i \in Sampled(base) \ {0}, c \in StrayBytes}
+                     \cup {Ins(base, i, x) : i \in Spots(base), x \in ShortRuns}
+                     \cup {Ins(base, i, x) : i \in EndSpots(base), x \in LongRuns(base)}
+                     \cup {base}
+                   : base \in StrayBases }
+
+Init == /\ n = 0 /\ dev = 0 /\ phase = "spell" /\ padlen = 0 /\ out = NoOut
+        /\ IF IsStray THEN atoms \in StrayStrings /\ pos = "stop"
+           ELSE atoms = <<>> /\ pos \in (IF Mode = "free" THEN {"free"} ELSE {"start", "host"})
 
 Next == \/ \E m \in Moves(pos, n) : Spell(m)
         \/ \E t \in {0, 254, 255, 256} : Close(t)
@@ -418,6 +463,14 @@ FaultAgrees == Done => /\ (out.us = "acc" => out.fu = "") /\ (out.us = "rej" => 
                        /\ (out.sn = "acc" => out.fs = "") /\ (out.sn = "rej" => out.fs # "")
 \* no identifier is valid for two kinds; IPv4 literals are DNS names as well
 KindsDisjoint == Done => ~(out.rm # "rej" /\ out.uh # "rej")
+\* a stray byte (LF, CR, TAB, space, NUL) is in no server name, no strict user ID and no domainless room ID,
+\* wherever it is and however many there are; where the grammar admits any character it changes nothing else
+HasStray(s) == \E i \in 1..Len(s) : s[i] \in StrayBytes
+StrayRefused == Done /\ HasStray(S) => /\ out.sn = "rej" /\ out.us = "rej"
+                                       /\ (FirstColon(S) = 0 => out.rm = "rej" /\ out.uh = "rej")
+                                       /\ (FirstColon(S) > 0 /\ HasStray(SubSeq(S, FirstColon(S) + 1, Len(S))) => out.rm = "rej" /\ out.uh = "rej")
+\* the bases of mode "stray" are valid, each for its own kind
+StrayBasesValid == \A b \in StrayBases : \/ RoomIDOK(b, FALSE) \/ UserIDOK(b, "strict", FALSE) \/ ServerNameOK(b, FALSE)
 IPv4WithinDns == Done => (IPv4OK(S) => DnsOK(S))
 
 (***************************************************************************)
